@@ -114,6 +114,12 @@ SPECS = [
          lambda u: _u(u['time']), dtype_rule=None, absolute='time'),
     Spec('wavelength_to_inverse_velocity', 'cascade', [Arg('wavelength', 'wavelength')], lambda u: _u('s/m'),
          dtype_rule=None),
+    # t_sample = t_pulse + tof - L2 lambda m_n / h: pulse time and time-of-flight are added as they are (scipp
+    # refuses to add different units, that is its documented arithmetic), so they share one unit; the flight
+    # path and the wavelength may come in any unit.  No dtype is documented for this kernel: values and units only.
+    Spec('time_at_sample_from_tof', 'tof',
+         [Arg('pulse_time', 'time'), Arg('tof', 'time', data=True), Arg('L2', 'length'), Arg('wavelength', 'wavelength')],
+         lambda u: _u(u['tof']), dtype_rule=None, cond='same_time_unit', absolute='time_at_sample'),
 ]
 SPEC_BY_NAME = {s.name: s for s in SPECS}
 
@@ -278,6 +284,8 @@ def run_kernel_grid(rng, ctx, spec, fn, cells, tier, mon, point_index=0):
         abs_scale = 2 * si.PI / phys(base_kw['wavelength'])
     elif spec.absolute == 'time':
         abs_scale = np.abs(phys(base_kw['time'])) + np.abs(base_out[''])
+    elif spec.absolute == 'time_at_sample':
+        abs_scale = np.abs(phys(base_kw['pulse_time'])) + np.abs(phys(base_kw['tof'])) + np.abs(base_out[''])
     else:
         abs_scale = None
 
@@ -285,6 +293,9 @@ def run_kernel_grid(rng, ctx, spec, fn, cells, tier, mon, point_index=0):
         if spec.cond == 'same_unit':
             units = dict(units)
             units['source_position'] = units['position']
+        if spec.cond == 'same_time_unit':
+            units = dict(units)
+            units['pulse_time'] = units['tof']
         if any(dtypes[a.name] == 'float32' for a in spec.args if a.data) and any(
                 units[a.name] not in F32_DOMAIN[a.kind] for a in spec.args):
             ctx.count('cells out of the float32 domain (extreme unit with single-precision data)')
@@ -293,6 +304,13 @@ def run_kernel_grid(rng, ctx, spec, fn, cells, tier, mon, point_index=0):
         sig = (spec.name, tuple(units[a.name] for a in spec.args), tuple(dtypes[a.name] for a in spec.args))
         if kw is None:
             ctx.count('cells skipped: value not an exact small integer in that unit')
+            continue
+        if spec.name == 'time_at_sample_from_tof' and any(
+                dtypes[n] == 'int32' and np.max(np.abs(np.asarray(kw[n].values, dtype=np.float64))) >= 46341
+                for n in ('L2', 'wavelength', 'tof', 'pulse_time')):
+            # the property quantifies over integer operands whose squares are representable: an int32
+            # operand of 46341 or more is outside it (this kernel multiplies two operands as they are)
+            ctx.count('cells outside the quantifier: int32 operand whose square is not representable')
             continue
         # re-expressing a float32 operand in another unit is itself only exact to single precision, so any
         # float32 operand sets the comparison to single precision here (C01/C05 judge mixed-precision
